@@ -92,9 +92,7 @@ def file_write(ex, st, recv, args, kwargs, e):
     b = args[0]
     if b.k != "ref":
         raise Unsupported("file.write of %s" % b.k, e)
-    bl = z3.simplify(_len(ctx, st, b.z))
-    if not (z3.is_int_value(bl) and bl.as_long() == 1):
-        raise Unsupported("file.write only modelled for a single byte", e)
+    ctx.oblige(st, _len(ctx, st, b.z) == 1, "model-limit", e, "file.write is modelled for a single byte only")
     byte = _elem(ctx, st, b.z)[0]
     f = recv.z
     pos = _get(ctx, st, "val_fpos", f)
